@@ -125,7 +125,52 @@ def build(cfg, memdir=None):
     return sampler, inits, n_warm, kw
 
 
+# --- write-back model of memory-mapped files --------------------------------------------------
+# The operating system's page cache makes un-flushed memmap writes visible to np.load, so a missing
+# flush() cannot be seen by reading the file back.  The harness therefore models the device: a
+# write through a memmap is durable only once flush() has been called on a memmap of that file.
+# State per file: "fill" (only whole-array assignments so far - the initial fill), "dirty" (an
+# element / row written since the last flush), "clean".
+
+_REAL_OPEN_MEMMAP = np.lib.format.open_memmap
+MEMSTATE = {}
+
+
+class TrackedMemmap(np.memmap):
+    def __setitem__(self, key, value):
+        fn = str(getattr(self, "filename", None))
+        whole = isinstance(key, slice) and key == slice(None)
+        if whole and MEMSTATE.get(fn, "fill") == "fill":
+            MEMSTATE[fn] = "fill"
+        else:
+            MEMSTATE[fn] = "dirty"
+        super().__setitem__(key, value)
+
+    def flush(self):
+        super().flush()
+        MEMSTATE[str(getattr(self, "filename", None))] = "clean"
+
+
+def _tracked_open_memmap(*a, **k):
+    m = _REAL_OPEN_MEMMAP(*a, **k)
+    return m.view(TrackedMemmap) if isinstance(m, np.memmap) else m
+
+
 def run_once(cfg, n_process, target, memdir=None):
+    track = memdir is not None and cfg["mode"] != "real"
+    if not track:
+        return _run_once(cfg, n_process, target, memdir)
+    MEMSTATE.clear()
+    np.lib.format.open_memmap = _tracked_open_memmap
+    try:
+        res = _run_once(cfg, n_process, target, memdir)
+    finally:
+        np.lib.format.open_memmap = _REAL_OPEN_MEMMAP
+    res["memstate"] = {os.path.basename(k): v for k, v in MEMSTATE.items()}
+    return res
+
+
+def _run_once(cfg, n_process, target, memdir=None):
     """Run with an interrupt at `target` (or None).  Returns dict or raises."""
     PLAN["target"] = target
     PLAN["counts"] = {}
@@ -302,6 +347,14 @@ def judge(cfg, ref, res, target, mode, acc, viol):
             if not np.array_equal(s["pos"], want):
                 viol("finished_chain_final_state_differs", s["pos"], want, chain=c)
                 return "violation"
+    # write-back model: nothing written since the last flush() of its file
+    ms = res.get("memstate")
+    if ms is not None:
+        acc.count("memmap_files_tracked", len(ms))
+        dirty = sorted(k for k, v in ms.items() if v == "dirty")
+        if dirty:
+            viol("memmap_written_after_last_flush", dirty, "every written file flushed")
+            return "violation"
     # memmap files on disk equal the returned arrays
     for fname, arr in res["files"].items():
         parts = fname[:-4].split("_")
@@ -370,6 +423,14 @@ def check_config(cfg, acc):
                                                              "callback": None},
                       kind="inconsistent_prefix", observed=str(ref)[:200], expected="returns")
         return
+    if ref.get("memstate") is not None:
+        dirty = sorted(k for k, v in ref["memstate"].items() if v == "dirty")
+        if dirty:
+            acc.violation(driver="interrupt", config=cfg,
+                          fields={**F, "what": "uninterrupted_run_leaves_memmap_unflushed",
+                                  "callback": None},
+                          kind="inconsistent_prefix", observed=dirty, expected="all flushed")
+            return
     pts = crash_points(ref, cfg)
     acc.count("crash_points", len(pts))
     for target in pts:
@@ -465,13 +526,20 @@ def run(tier, seed, acc):
                 "observed in an uninterrupted run is used as an interrupt point; configurations: "
                 "sequential / simulated pool (E3) / real pool x single, two-stage, adaptive "
                 "two-stage x memory / memmap (user directory) x 1..3 chains x trace_warm_up; "
+                "memmap runs (sequential and simulated pool) use a write-back device model: a "
+                "write through a memmap is durable only after flush() on that file, and no file "
+                "may be left written-but-unflushed at return; "
                 "non-trivial = distinct (configuration, interrupt point) pairs judged consistent",
         "exhaustive": True,
         "bounds": {"configs": len(cfgs), "crash_points": c.get("crash_points", 0),
+                   "memmap_files_tracked": c.get("memmap_files_tracked", 0),
                    "verdicts": {k: v for k, v in c.items() if k.startswith("verdict_")}},
     }
     return cov, ["the interrupt is raised by the harness's callback in the thread/process that "
                  "runs the chain (where a real SIGINT is delivered to the user code)",
+                 "write-back model: the initial whole-array fill written by the parent process is "
+                 "not required to be flushed (only element / row writes are); real-pool runs "
+                 "are judged by reading the files back only",
                  "the row of the iteration in progress may hold, array by array, either the fill "
                  "value or the true value"]
 
